@@ -26,6 +26,8 @@ pub const EDITS: &[&str] = &[
     "change-timestamp",
     "change-treasury-field",
     "duplicate-last-tx",
+    "insert-spv-stub",
+    "insert-spv-stub",
 ];
 
 #[derive(Clone, Debug, Serialize, Deserialize)]
@@ -66,7 +68,7 @@ impl Scenario for C06 {
     fn meta(&self) -> Meta {
         Meta {
             level: "exploration",
-            rule: "run = honest history of 2..8/15 blocks (2-5 zero- and non-zero-fee payments each); the block at a seeded position is edited by one of 10 edits that keep it decodable: swap two transactions, replace a transaction by another valid one with the same fee, add / remove a zero-fee transaction, duplicate the last transaction, change a transaction payload (all without touching the signed header, so the hash is unchanged), re-sign the header with another key, change creator / timestamp / treasury without re-signing. Edited block -> node A, original -> node B, then the rest of the history to both. The receiving nodes are synced from genesis, or joined mid-chain (the parent is the first block they ever saw, so the total supply is not loaded and ledger-dependent checks are off), or fresh (the edited block is block #1 itself). Oracles: (1) a block whose hash equals the original's but whose ordered transaction list differs is never accepted; (2) whenever A and B report the same tip hash their spendable sets are identical; (3) a header edit either changes the hash or the block is rejected. distinct_nontrivial = distinct (edit, block position, depth) where the edit applied and hashes were compared.",
+            rule: "run = honest history of 2..8/15 blocks (2-5 zero- and non-zero-fee payments each); the block at a seeded position is edited by one of 10 edits that keep it decodable: swap two transactions, replace a transaction by another valid one with the same fee, add / remove a zero-fee transaction, duplicate the last transaction, insert a slip-less SPV-typed stub (standing for 0 or 1 transactions), change a transaction payload (all without touching the signed header, so the hash is unchanged), re-sign the header with another key, change creator / timestamp / treasury without re-signing. Edited block -> node A, original -> node B, then the rest of the history to both. The receiving nodes are synced from genesis, or joined mid-chain (the parent is the first block they ever saw, so the total supply is not loaded and ledger-dependent checks are off), or fresh (the edited block is block #1 itself). Oracles: (1) a block whose hash equals the original's but whose ordered transaction list differs is never accepted; (2) whenever A and B report the same tip hash their spendable sets are identical; (3) a header edit either changes the hash or the block is rejected. distinct_nontrivial = distinct (edit, block position, depth) where the edit applied and hashes were compared.",
             real: &["Block::deserialize_from_net/generate/generate_merkle_root/validate", "MerkleTree", "Blockchain::add_block"],
             stubs: &["SimIo", "SimConfig", "vendored ahash"],
             assumptions: &["genesis period >> depth"],
@@ -204,6 +206,18 @@ impl Scenario for C06 {
                     }
                     None => applied = false,
                 }
+            }
+            "insert-spv-stub" => {
+                // a slip-less placeholder-typed transaction that claims to stand for zero transactions,
+                // with an arbitrary payload: nobody signed it, it moves no value
+                let mut t = saito_core::core::consensus::transaction::Transaction::default();
+                t.transaction_type = TransactionType::SPV;
+                t.txs_replacements = (rng.below(2)) as u32; // 0 or 1
+                t.timestamp = orig.timestamp;
+                t.data = vec![0x53, 0x50, 0x56, rng.below(256) as u8];
+                t.signature = [rng.below(255) as u8 + 1; 64];
+                let at = rng.usize_below(e.transactions.len() + 1);
+                e.transactions.insert(at, t);
             }
             "change-tx-payload" => match e.transactions.iter().position(|t| t.transaction_type == TransactionType::Normal || fresh_genesis) {
                 Some(i) => e.transactions[i].data.push(0x42),
